@@ -1,17 +1,59 @@
 (* Correspondence entry point for C01: after every operation of a history, the
    outcome of the operation and every reverse lookup of every item (model: through
-   the reverse indices; spec: scan over the live annotations). *)
+   the reverse indices; spec: scan over the live annotations).  Besides, for every complex
+   target, the stored form: the harness reports the subselector vector the implementation
+   keeps (with its internal ranged selectors) and what iterating over it yields in stored
+   order; the model compresses the latter itself (Model/Compress.v) and expands the former
+   itself.  Those two sub-cases tie the compression model to the code: the reported value is
+   echoed as the specification, so a difference shows as a divergence of the model. *)
 From Coq Require Import List ZArith Bool Arith.
 Import ListNotations.
-From Stam Require Import Base.Sx Model.Offset Model.Store Model.StoreObs Spec.StoreSpec Run.StoreRun.
+From Stam Require Import Base.Sx Model.Offset Model.Store Model.StoreObs Model.Compress Spec.StoreSpec Run.StoreRun.
 
-Fixpoint run_ops (s : store) (ops : list op) : list sx :=
+Definition csel_of_sx (x : sx) : csel :=
+  let n i := sx_nat (sx_nth i x) in
+  match sx_Z (sx_nth 0 x) with
+  | 0%Z => CLeaf (LText (n 1) (n 2) (n 3))
+  | 1%Z => CLeaf (LAnnText (n 4) (n 1) (n 2) (n 3))
+  | 2%Z => CLeaf (LAnn (n 1))
+  | 3%Z => CLeaf (LRes (n 1))
+  | 4%Z => CLeaf (LSet (n 1))
+  | 5%Z => CLeaf (LKey (n 1) (n 2))
+  | 6%Z => CLeaf (LData (n 1) (n 2))
+  | 7%Z => CRText (n 1) (n 2) (n 3)
+  | _ => CRAnn (n 1) (n 2) (negb (Nat.eqb (n 3) 0))
+  end.
+
+Definition sx_of_csel (c : csel) : sx :=
+  match c with
+  | CLeaf lf => of_nats (leaf_key lf)
+  | CRText r b e => of_nats [7; r; b; e; 0]
+  | CRAnn b e wt => of_nats [8; b; e; if wt then 1 else 0; 0]
+  end.
+
+(* the leaves of a list of stored selectors that are leaves (what the harness sends as the
+   iteration result contains leaves only) *)
+Definition leaves_of (l : list csel) : list leaf :=
+  flat_map (fun c => match c with CLeaf lf => [lf] | _ => [] end) l.
+
+Definition form_cases (s : store) (f : sx) : list sx :=
+  flat_map (fun e =>
+      let stored := sx_nth 1 e in
+      let expanded := sx_nth 2 e in
+      let cs := map csel_of_sx (sx_list stored) in
+      let lfs := leaves_of (map csel_of_sx (sx_list expanded)) in
+      [triple (L (map sx_of_csel (compress (whole s) lfs))) stored 0;
+       triple (L (map (fun lf => of_nats (leaf_key lf)) (expand (own_text s) cs))) expanded 0])
+    (sx_list f).
+
+Fixpoint run_ops (s : store) (ops : list op) (forms : list sx) : list sx :=
   match ops with
   | [] => []
   | o :: ops' =>
       let '(s', r) := step s o in
       let ro := sx_of_opout o r in
-      (triple ro ro 0 :: obs_state s') ++ run_ops s' ops'
+      (triple ro ro 0 :: obs_state s') ++ form_cases s' (hd (L []) forms) ++ run_ops s' ops' (tl forms)
   end.
 
-Definition run_C01 (x : sx) : sx := L (run_ops empty_store (map op_of_sx (sx_list x))).
+Definition run_C01 (x : sx) : sx :=
+  L (run_ops empty_store (map op_of_sx (sx_list (sx_nth 0 x))) (sx_list (sx_nth 1 x))).
